@@ -106,16 +106,19 @@ def data_mismatch(arr, t, expect, raw_ts):
 
 
 def prop_mismatch(val, t, v, raw_ts):
+    # the kind of value (integer / float / bool / text) and the value itself are what the statements speak about, not
+    # whether it arrives as a Python or a numpy scalar
+    import numbers
     if t in fmt.INT_RANGE:
-        ok = isinstance(val, int) and not isinstance(val, bool) and val == v
+        ok = isinstance(val, numbers.Integral) and not isinstance(val, (bool, np.bool_)) and int(val) == v
     elif t in ('f32', 'f64', 'f32u', 'f64u'):
         exp = struct.unpack('<f' if t in ('f32', 'f32u') else '<d', v)[0]
-        ok = isinstance(val, float) and ((math.isnan(val) and math.isnan(exp)) or
-                                         (val == exp and math.copysign(1, val) == math.copysign(1, exp)))
+        ok = isinstance(val, (float, np.floating)) and ((math.isnan(val) and math.isnan(exp)) or (
+            float(val) == exp and math.copysign(1, float(val)) == math.copysign(1, exp)))
     elif t == 'str':
         ok = isinstance(val, str) and val == v
     elif t == 'bool':
-        ok = isinstance(val, bool) and val == bool(v)
+        ok = isinstance(val, (bool, np.bool_)) and bool(val) == bool(v)
     elif t == 'ts':
         sec, frac = v
         if raw_ts:
